@@ -253,14 +253,288 @@ pub fn walk_tree(b: &[u8], sz: &Sizes) -> Option<Bad> {
 /// classify raw bytes destined for a decoder of type `ty`
 pub fn walk(ty: &str, b: &[u8], sz: &Sizes) -> Option<Bad> {
     match ty {
-        "AggregateSignature" => match b.first() {
-            Some(0) => walk_concat(&b[1..], sz),
-            _ => None,
-        },
-        "SingleSignatureWithRegisteredParty" => walk_sigreg(b),
+        "AggregateSignature" => walk_agg_any(b, sz),
+        "SingleSignatureWithRegisteredParty" => walk_sigreg_any(b),
         "SingleSignature" => walk_sig(b),
         "MerkleBatchPath" => walk_bpath(b),
         "MerkleTree" => walk_tree(b, sz),
+        "MKMapProof" => (mkmap_depth(b) >= DEEP).then_some(Bad { field: "mkmap.sub_proofs_depth", cls: "deep" }),
+        _ => None,
+    }
+}
+
+// ------------------------------------------------------------------------------------------
+// bincode (standard config) walker for MKMapProof<BlockRange>: nesting depth of `sub_proofs`
+// (iterative; stops at the first thing it cannot parse)
+// ------------------------------------------------------------------------------------------
+fn varint(b: &[u8], pos: &mut usize) -> Option<u64> {
+    let t = *b.get(*pos)?;
+    *pos += 1;
+    let take = |pos: &mut usize, n: usize| -> Option<u64> {
+        let s = b.get(*pos..*pos + n)?;
+        *pos += n;
+        let mut x = [0u8; 8];
+        x[..n].copy_from_slice(s);
+        Some(u64::from_le_bytes(x))
+    };
+    match t {
+        0..=250 => Some(t as u64),
+        251 => take(pos, 2),
+        252 => take(pos, 4),
+        253 => take(pos, 8),
+        _ => None,
+    }
+}
+
+fn skip_node(b: &[u8], pos: &mut usize) -> Option<()> {
+    let n = varint(b, pos)? as usize;
+    if n > b.len().saturating_sub(*pos) {
+        return None;
+    }
+    *pos += n;
+    Some(())
+}
+
+fn skip_mkproof(b: &[u8], pos: &mut usize) -> Option<()> {
+    skip_node(b, pos)?; // inner_root
+    let leaves = varint(b, pos)?;
+    for _ in 0..leaves {
+        varint(b, pos)?;
+        skip_node(b, pos)?;
+    }
+    varint(b, pos)?; // inner_proof_size
+    let items = varint(b, pos)?;
+    for _ in 0..items {
+        skip_node(b, pos)?;
+    }
+    Some(())
+}
+
+pub fn mkmap_depth(b: &[u8]) -> usize {
+    let mut pos = 0usize;
+    let mut stack: Vec<u64> = vec![];
+    let mut max_depth = 0usize;
+    let open = |pos: &mut usize, stack: &mut Vec<u64>| -> Option<()> {
+        skip_mkproof(b, pos)?;
+        let n = varint(b, pos)?;
+        stack.push(n);
+        Some(())
+    };
+    if open(&mut pos, &mut stack).is_none() {
+        return 0;
+    }
+    while let Some(top) = stack.last_mut() {
+        if *top == 0 {
+            stack.pop();
+            continue;
+        }
+        *top -= 1;
+        // key: BlockRange = two varints
+        if varint(b, &mut pos).is_none() || varint(b, &mut pos).is_none() {
+            break;
+        }
+        if open(&mut pos, &mut stack).is_none() {
+            break;
+        }
+        max_depth = max_depth.max(stack.len() - 1);
+    }
+    max_depth
+}
+
+/// depth from which the recursive bincode decoder is considered unable to honour the nesting
+pub const DEEP: usize = 4096;
+
+// ------------------------------------------------------------------------------------------
+// The CBOR envelopes of mithril-stm carry nested byte strings (serialised as arrays of small
+// integers) that are handed to the same versioned decoders, so a legacy layout can sit inside
+// the current format. Minimal writer (to realise such inputs) and reader (so that the walker
+// classifies what is really inside).
+// ------------------------------------------------------------------------------------------
+pub mod cbor {
+    fn head(out: &mut Vec<u8>, major: u8, n: u64) {
+        let m = major << 5;
+        if n < 24 {
+            out.push(m | n as u8);
+        } else if n < 256 {
+            out.push(m | 24);
+            out.push(n as u8);
+        } else if n < 65536 {
+            out.push(m | 25);
+            out.extend_from_slice(&(n as u16).to_be_bytes());
+        } else if n < (1 << 32) {
+            out.push(m | 26);
+            out.extend_from_slice(&(n as u32).to_be_bytes());
+        } else {
+            out.push(m | 27);
+            out.extend_from_slice(&n.to_be_bytes());
+        }
+    }
+    pub fn text(out: &mut Vec<u8>, s: &str) {
+        head(out, 3, s.len() as u64);
+        out.extend_from_slice(s.as_bytes());
+    }
+    pub fn uint(out: &mut Vec<u8>, n: u64) {
+        head(out, 0, n);
+    }
+    /// `Vec<u8>` as serde / ciborium writes it: an array of unsigned integers
+    pub fn byte_array(out: &mut Vec<u8>, b: &[u8]) {
+        head(out, 4, b.len() as u64);
+        for x in b {
+            uint(out, *x as u64);
+        }
+    }
+    pub fn array(out: &mut Vec<u8>, n: u64) {
+        head(out, 4, n);
+    }
+    pub fn map(out: &mut Vec<u8>, n: u64) {
+        head(out, 5, n);
+    }
+
+    pub struct Rd<'a> {
+        pub b: &'a [u8],
+        pub p: usize,
+    }
+    impl Rd<'_> {
+        pub fn head(&mut self) -> Option<(u8, u64)> {
+            let t = *self.b.get(self.p)?;
+            self.p += 1;
+            let (major, a) = (t >> 5, t & 0x1f);
+            let n = match a {
+                0..=23 => a as u64,
+                24..=27 => {
+                    let k = 1usize << (a - 24);
+                    let s = self.b.get(self.p..self.p + k)?;
+                    self.p += k;
+                    s.iter().fold(0u64, |acc, x| (acc << 8) | *x as u64)
+                }
+                _ => return None,
+            };
+            Some((major, n))
+        }
+        pub fn text(&mut self) -> Option<String> {
+            let (m, n) = self.head()?;
+            if m != 3 {
+                return None;
+            }
+            let s = self.b.get(self.p..self.p.checked_add(n as usize)?)?;
+            self.p += n as usize;
+            String::from_utf8(s.to_vec()).ok()
+        }
+        pub fn byte_array(&mut self) -> Option<Vec<u8>> {
+            let (m, n) = self.head()?;
+            if m != 4 || n as usize > self.b.len() {
+                return None;
+            }
+            let mut v = Vec::with_capacity(n as usize);
+            for _ in 0..n {
+                let (m, x) = self.head()?;
+                if m != 0 || x > 255 {
+                    return None;
+                }
+                v.push(x as u8);
+            }
+            Some(v)
+        }
+    }
+}
+
+/// aggregate CBOR envelope around a concatenation CBOR envelope around the given parts
+pub fn wrap_in_cbor_aggregate(sig_regs: &[Vec<u8>], batch_path: &[u8]) -> Vec<u8> {
+    let mut inner = vec![1u8];
+    cbor::map(&mut inner, 2);
+    cbor::text(&mut inner, "signature_bytes");
+    cbor::array(&mut inner, sig_regs.len() as u64);
+    for s in sig_regs {
+        cbor::byte_array(&mut inner, s);
+    }
+    cbor::text(&mut inner, "batch_proof_bytes");
+    cbor::byte_array(&mut inner, batch_path);
+    let mut out = vec![1u8];
+    cbor::map(&mut out, 2);
+    cbor::text(&mut out, "signature_type");
+    cbor::uint(&mut out, 0);
+    cbor::text(&mut out, "proof_bytes");
+    cbor::byte_array(&mut out, &inner);
+    out
+}
+
+fn walk_sigreg_any(b: &[u8]) -> Option<Bad> {
+    if b.first() != Some(&1) {
+        return walk_sigreg(b);
+    }
+    // {signature_bytes, registration_entry_bytes}
+    let mut r = cbor::Rd { b, p: 1 };
+    let (m, n) = r.head()?;
+    if m != 5 {
+        return None;
+    }
+    for _ in 0..n {
+        let k = r.text()?;
+        let v = r.byte_array()?;
+        if k == "signature_bytes" {
+            if let Some(x) = walk_sig(&v) {
+                return Some(x);
+            }
+        }
+    }
+    None
+}
+
+fn walk_concat_any(b: &[u8], sz: &Sizes) -> Option<Bad> {
+    if b.first() != Some(&1) {
+        return walk_concat(b, sz);
+    }
+    let mut r = cbor::Rd { b, p: 1 };
+    let (m, n) = r.head()?;
+    if m != 5 {
+        return None;
+    }
+    let mut path: Option<Vec<u8>> = None;
+    for _ in 0..n {
+        match r.text()?.as_str() {
+            "signature_bytes" => {
+                let (m, k) = r.head()?;
+                if m != 4 {
+                    return None;
+                }
+                for _ in 0..k {
+                    let s = r.byte_array()?;
+                    if let Some(x) = walk_sigreg_any(&s) {
+                        return Some(x);
+                    }
+                }
+            }
+            "batch_proof_bytes" => path = Some(r.byte_array()?),
+            _ => return None,
+        }
+    }
+    walk_bpath(&path?)
+}
+
+/// AggregateSignature bytes in either format
+pub fn walk_agg_any(b: &[u8], sz: &Sizes) -> Option<Bad> {
+    match b.first() {
+        Some(0) => walk_concat_any(&b[1..], sz),
+        Some(1) => {
+            let mut r = cbor::Rd { b, p: 1 };
+            let (m, n) = r.head()?;
+            if m != 5 {
+                return None;
+            }
+            let mut ty = None;
+            let mut proof = None;
+            for _ in 0..n {
+                match r.text()?.as_str() {
+                    "signature_type" => ty = Some(r.head()?.1),
+                    "proof_bytes" => proof = Some(r.byte_array()?),
+                    _ => return None,
+                }
+            }
+            if ty? != 0 {
+                return None;
+            }
+            walk_concat_any(&proof?, sz)
+        }
         _ => None,
     }
 }
